@@ -109,6 +109,20 @@ Section C10.
     apply (sampler_rows_never_lost f sw old st del k i c HI); [|exact L].
     eapply Permutation_Forall; [apply Permutation_sym, Hp | apply del_canon_delstep].
   Qed.
+
+  (* the same for a harvester crop: no result leaves the crop before its entries are in the data file *)
+  Theorem C10_harvest_results_never_lost : forall st del k i c,
+    kd = KHarvester -> reach st -> Permutation del (del_canon st) ->
+    lookup st (Fin (BResult i)) = Some c ->
+    lookup (crashed (OReap KHarvester del) k st) (Fin (BResult i)) = Some c
+    \/ exists m, lookup (crashed (OReap KHarvester del) k st) (Fin BData) = Some (Whole (PData m))
+                 /\ forall kv, In kv (newd f sw) -> klookup (fst kv) m = Some (snd kv).
+  Proof.
+    intros st del k i c Hk HR Hp L.
+    pose proof (reachable_inv f sw kd old tab no_conflict batches_nonempty _ HR) as HI. rewrite Hk in HI.
+    apply (harvest_results_never_lost f sw old no_conflict st del k i c HI); [|exact L].
+    eapply Permutation_Forall; [apply Permutation_sym, Hp | apply del_canon_delstep].
+  Qed.
 End C10.
 
 (* Data merged into the harvester's file before the crashed operation is still in the file after
@@ -252,6 +266,7 @@ Print Assumptions C10_recovery_exact.
 Print Assumptions C10_recovery_reentrant.
 Print Assumptions C10_recovery_exact_sampler_partial.
 Print Assumptions C10_sampler_rows_never_lost.
+Print Assumptions C10_harvest_results_never_lost.
 Print Assumptions C10_harvest_survives.
 Print Assumptions C10_sampler_window_refuted.
 Print Assumptions C10_harvest_survives_refuted_old.
